@@ -44,6 +44,9 @@ CHECKS = {
  "C11": dict(technique="CrossHair symbolic execution of Transform.replace/replace_with/insert/delete/replace_range/replace_range_with/delete_range (Fitter, covered_depths, close_fragment, insert_point) with symbolic range ends and payload index / second-document cut positions; spec-derived validator and token-level content-preservation oracle",
              text="For every catalogue document of the bundled, list, strict, title, fixed, isolating and table schemas, every in-range ordered range and every catalogue slice/node (thorough: also slices cut at two symbolic positions from a second document) each path of the seven replace-family operations ends without any exception, with a valid document, the text/leaf sequence before and after the range intact and the content in between an in-order subsequence of the inserted content (empty for deletes).",
              ref="4/C11"),
+ "C18": dict(technique="CrossHair symbolic execution of the replace-family operations with both range ends symbolic inside each isolating node, of lift_target/can_split with symbolic positions and depth, and of Slice.max_open; token-level framing oracle",
+             text="For every isolating node of the iso and table templates and every range inside it (incl. its whole content) each replace-family operation with every catalogue payload leaves the tokens before the node's opening and after its closing and the node itself in place (strict form in the iso schema and for the delete family everywhere; for the table-like schema the fitter's documented escape/split mode is an open known finding); lift_target and can_split never cross an isolating ancestor; max_open(open_isolating) counts exactly the non-isolating spine.",
+             ref="4/C18"),
 }
 CHECKS_END = None
 
